@@ -127,9 +127,13 @@ aggregate[category_title] contains entry if {
 	some category, title
 	_rules_to_run[category][title]
 
-	some entry in data.regal.rules[category][title].aggregate
+	# a rule that aggregated nothing is still registered as called, so that its aggregate_report runs:
+	# the absence of data is exactly what some rules (no-defined-entrypoint) report on
+	entries := _mark_if_empty(data.regal.rules[category][title].aggregate)
 
 	category_title := concat("/", [category, title])
+
+	some entry in entries
 }
 
 # METADATA
@@ -168,7 +172,7 @@ aggregate_report contains violation if {
 
 	key := concat("/", [category, title])
 	input_for_rule := object.remove(
-		object.union(input, {"aggregate": object.get(input, ["aggregates_internal", key], [])}),
+		object.union(input, {"aggregate": _null_to_empty(object.get(input, ["aggregates_internal", key], []))}),
 		["aggregates_internal"],
 	)
 
